@@ -9,7 +9,7 @@
 From Coq Require Import List ZArith NArith Bool String Permutation.
 Import ListNotations.
 From DD Require Import Base.PyStr Base.Value Hash.HashModel Hash.Equiv
-  Hash.HashProofsBase Hash.HashProofsC06 Hash.HashProofsC07 Hash.HashProofsMemo.
+  Hash.HashProofsBase Hash.HashProofsC06 Hash.HashProofsC07 Hash.HashProofsMemo Hash.HashProofsK2 Hash.HashMembers.
 
 (* Order-insensitive modes (ignore_iterable_order=True: nested-set and
    nested-multiset mode), every option record, every hasher, all values. *)
@@ -89,6 +89,19 @@ Theorem C06_memo_refuted :
 Proof. exact memo_refuted. Qed.
 Print Assumptions C06_memo_refuted.
 
+(* the same for every hasher that is injective with non-empty separator-free outputs *)
+Theorem C06_memo_any_hasher_refuted :
+  forall (H : pystr -> pystr),
+  (forall s, s <> [] -> sepfree (H s)) -> (forall s t, H s = H t -> s = t) ->
+  let a := VDict [(AStr (s2p "a"), VAtom (AHalf 0)); (AInt 0, VAtom (AHalf 1))] in
+  let b := VDict [(AInt 0, VAtom (AHalf 1)); (AStr (s2p "a"), VAtom (AHalf 0))] in
+  eqv default_opts a b /\ deephash H default_opts a <> deephash H default_opts b.
+Proof.
+  intros H H_tok H_inj. cbv zeta. split; [apply eqv_dict_perm, perm_swap|].
+  exact (memo_refuted_any H H_tok H_inj).
+Qed.
+Print Assumptions C06_memo_any_hasher_refuted.
+
 (* ... with it, any table that is consistent (e.g. produced by earlier calls)
    is transparent and stays consistent: sharing or pre-seeding changes nothing. *)
 Theorem C06_memo_transparent_partial :
@@ -113,6 +126,29 @@ Proof.
     specialize (Ha a Hi'). rewrite forallb_forall in *. intros b Hb. apply Ha. apply in_or_app; auto.
 Qed.
 Print Assumptions C06_shared_table_partial.
+
+(* The table as DeepDiff itself shares it: _create_hashtable hashes the members of a set / items of a list one by
+   one on self.hashes ([hash_members_memo], [hash_items_memo], [create_hashtable] in Hash/HashMembers.v). *)
+Theorem C06_members_memo_transparent_partial :
+  forall (H : pystr -> pystr) o m xs,
+  memo_ok H o m -> no_alias (matoms m ++ xs) = true ->
+  fst (hash_members_memo H o m xs) = map (hash_atom H o) xs /\
+  memo_ok H o (snd (hash_members_memo H o m xs)) /\
+  incl (matoms (snd (hash_members_memo H o m xs))) (matoms m ++ xs).
+Proof. exact hash_members_memo_pure. Qed.
+Print Assumptions C06_members_memo_transparent_partial.
+
+Theorem C06_create_hashtable_transparent_partial :
+  forall (H : pystr -> pystr) o m v,
+  memo_ok H o m -> wf v = true -> order_ok o v = true ->
+  (forall x, In x (children v) -> wf x = true /\ order_ok o x = true) ->
+  incl (flat_map atoms_of (children v)) (atoms_of v) ->
+  no_alias (matoms m ++ atoms_of v) = true ->
+  fst (create_hashtable H o m v) = add_hashes (map (hash_pure H o) (children v)) (children v) [] /\
+  memo_ok H o (snd (create_hashtable H o m v)) /\
+  incl (matoms (snd (create_hashtable H o m v))) (matoms m ++ atoms_of v).
+Proof. exact create_hashtable_pure. Qed.
+Print Assumptions C06_create_hashtable_transparent_partial.
 
 (* The property on the observable DeepHash(v)[v] (fresh table). *)
 Theorem C06_eqv_deephash_partial :
